@@ -101,6 +101,10 @@ def explore(body, opts: dict, expected=(), name='', measure_functions=True, val_
         'tv_compared': 0,
         'tv_mismatch': [],
         'exhausted': True,
+        'cc_total': 0,
+        'cc_agree': 0,
+        'cc_error': 0,
+        'cc_s': 0.0,
     }
     seen_fn: set = set()
     first = True
@@ -165,6 +169,8 @@ def explore(body, opts: dict, expected=(), name='', measure_functions=True, val_
         for k in ('vcs', 'vcs_trivial', 'vcs_linear', 'vcs_exact', 'entries', 'queries', 'decisions', 'unknown'):
             res[k] += getattr(st, k)
         res['solver_s'] += st.solver_s
+        for k in ('cc_total', 'cc_agree', 'cc_error', 'cc_s'):
+            res[k] += getattr(st, k, 0)
         if outcome in ('ok', 'expected_exc', 'infeasible'):
             res[outcome] += 1
         elif outcome == 'violation':
